@@ -346,6 +346,12 @@ impl<'a> Judge<'a> {
   }
 
   fn enumeration(&mut self, h: &Hist, e: &CEv, api: &str, items: &[(u8, u32, u32)]) {
+    self.enumeration_with(h, e, api, items, &[])
+  }
+
+  /// `optional`: keys the enumerating thread removed itself while enumerating - they may or may
+  /// not have been yielded (with their current value if so) and are gone afterwards.
+  fn enumeration_with(&mut self, h: &Hist, e: &CEv, api: &str, items: &[(u8, u32, u32)], optional: &[u8]) {
     let mut seen: BTreeMap<u8, u32> = BTreeMap::new();
     for (k, _, _) in items {
       *seen.entry(*k).or_default() += 1;
@@ -357,6 +363,9 @@ impl<'a> Judge<'a> {
     }
     for k in 0..self.sc.keys {
       let got = items.iter().find(|x| x.0 == k).map(|x| (x.1, x.2));
+      if optional.contains(&k) && got.is_none() {
+        continue;
+      }
       // classify a missing live entry as C17 (enumeration), everything else as usual
       let before = self.vs.len();
       self.read(h, e, api, k, got, Refresh::Maybe, false);
@@ -441,6 +450,12 @@ pub fn evaluate(sc: &HistSc, h: &Hist, restore: &Option<RestoreEv>, out: &RunOut
       }
       (COp::Iter { .. }, Res::Many(v)) => j.enumeration(h, e, if b.clients[0].is_async { "iter_stream" } else { "iter" }, v),
       (COp::IterStep { .. }, Res::Many(v)) => j.enumeration(h, e, "iter_with_clock_steps", v),
+      (COp::IterRemove { ks, .. }, Res::Many(v)) => {
+        j.enumeration_with(h, e, "iter_with_removals_between_batches", v, ks);
+        for k in ks {
+          j.model.remove(k);
+        }
+      }
       (COp::IterSnapshot, Res::Many(v)) => j.enumeration(h, e, "iter_snapshot", v),
       (COp::Snapshot, Res::Snap(s)) => snapshot_check(&mut j, h, e, "to_snapshot", s, t0, t1),
       (COp::Compute { k }, Res::Bool(done)) => {
@@ -622,7 +637,16 @@ impl HistFamily {
         22 => COp::Iter { batch: rng.range(1, 4) as u8 },
         23 => COp::IterSnapshot,
         24 if self.snapshots => COp::Snapshot,
-        25 => COp::IterStep { batch: rng.range(1, 3) as u8, after: rng.range(1, 4) as u8, ns: *rng.pick(&ADV) },
+        25 => {
+          if rng.chance(1, 2) {
+            COp::IterStep { batch: rng.range(1, 3) as u8, after: rng.range(1, 4) as u8, ns: *rng.pick(&ADV) }
+          } else {
+            // the iterating thread invalidates a run of keys between two batches
+            let n = rng.range(1, keys as u64) as u8;
+            let start = rng.below(keys as u64) as u8;
+            COp::IterRemove { batch: rng.range(1, 3) as u8, after: rng.range(1, 3) as u8, ks: (0..n).map(|i| (start + i) % keys).collect() }
+          }
+        }
         26 | 27 if loader => COp::FetchWith { k },
         28 => {
           // a run of distinct keys: fills several shards at once
@@ -866,7 +890,7 @@ impl Family for HistFamily {
 fn max_key(o: &COp) -> u8 {
   match o {
     COp::Insert { k, .. } | COp::InsertTtl { k, .. } | COp::Get { k } | COp::Fetch { k } | COp::Peek { k } | COp::Remove { k } | COp::Invalidate { k } | COp::Compute { k } | COp::EntryOrInsert { k, .. } | COp::EntryGet { k } | COp::FetchWith { k } => *k,
-    COp::MultiGet { ks } | COp::MultiRemove { ks } => ks.iter().copied().max().unwrap_or(0),
+    COp::MultiGet { ks } | COp::MultiRemove { ks } | COp::IterRemove { ks, .. } => ks.iter().copied().max().unwrap_or(0),
     COp::MultiInsert { items } => items.iter().map(|x| x.0).max().unwrap_or(0),
     _ => 0,
   }
